@@ -127,7 +127,8 @@ def check_C17(c):
                        'runs': [{'env': envs[r][0], 'exc': '', 'steps': logs[r][i]} for r in range(len(envs))]})
     # the command under several hash seeds
     import penman
-    texts = _graph_texts(c, 12)
+    texts = _graph_texts(c, 12) + ['(a / alpha :poss (b / beta) :beneficiary (c / gamma :poss a))',
+                                   '(i / include-91 :ARG1 (x / x) :ARG2 (y / y))', '(d / dog :subset (e / e) :superset (f / f))']
     stream = '\n\n'.join(texts)
     optsets = [[], ['--amr', '--reify-edges', '--reify-attributes'], ['--amr', '--check', '--canonicalize-roles'], ['--triples'],
                ['--rearrange', 'canonical', '--make-variables', '{prefix}{j}'], ['--amr', '--reify-edges', '--dereify-edges', '--indicate-branches'],
